@@ -5,7 +5,7 @@ CONSTANTS
  MCShapes = {"dup", "idx2", "docker"}
  MCPairs = {"tworeg", "samereg", "samerepo"}
  MCOpts <- MCOptsDefault
- MCFeats <- MCFeatsMount
+ MCFeats <- MCFeatsMount3
  MCInit = "corners"
  MCTag0 = {"none", "stale", "same"}
  MCByDigest = {FALSE}
